@@ -172,7 +172,7 @@ func (Sim) Run(raw json.RawMessage, prop string, keep bool) (res simfw.Result) {
 	newRaceReports() // discard anything older than this run
 
 	zzsimrt.ResetMapOrder(0)
-	w, err := LoadWorld(s.Marker, s.ColdPatterns)
+	w, err := LoadWorld(s.Marker, s.ColdPatterns, s.PlainDoc)
 	if err != nil {
 		res.Inconcl = "world: " + simfw.Trunc(err.Error(), 80)
 		return
@@ -275,6 +275,9 @@ func (Sim) Run(raw json.RawMessage, prop string, keep bool) (res simfw.Result) {
 	if s.ColdPatterns {
 		res.Probe("patterns-cold-at-start")
 	}
+	if s.PlainDoc {
+		res.Probe("first-use-in-process")
+	}
 
 	explicit := s
 	explicit.Policy = zzsimrt.Explicit(st.Trace, s.Policy.StepCap)
@@ -312,7 +315,7 @@ func (Sim) Run(raw json.RawMessage, prop string, keep bool) (res simfw.Result) {
 			b := bases[op.Regex]
 			if b == nil {
 				bm := fmt.Sprintf("%sb%d", s.Marker, len(bases)+1)
-				bw, err := LoadWorld(bm, s.ColdPatterns)
+				bw, err := LoadWorld(bm, s.ColdPatterns, s.PlainDoc)
 				if err != nil {
 					res.Inconcl = "baseline world"
 					return
